@@ -58,10 +58,11 @@ def common(res, pid):
                     "(match on a reference with default binding modes, matches!, auto-ref method calls, as_slice, len/get) — "
                     "compared with real compiled runs on every check, not proved",
                     "Model/Values.v: user expressions are interpreted only in a small sub-language (integer/bool/string literals, "
-                    "caller variables, `|x| x OP n` closures, `^lit$` regexes); numbers are mathematical integers",
+                    "caller variables, `|x| x OP n` closures, `^lit$` regexes); numbers are mathematical integers, f64 with integral value, or NaN; "
+                    "slice-like values that are not Vecs are `views` (slice::Iter)",
                     "harness/mac (real parser gives the tree the model consumes), harness/e2e + rustc, tools/semgen.py"]
     res.assumptions += ["user PartialEq/PartialOrd/Debug/Like impls and closures are pure and deterministic",
-                        "floats are not modelled (NaN-free floats embed order-isomorphically into the integers the model uses; not exercised)"]
+                        "floats: f64 values with integral value and NaN only (Values.v VFloat); operands are float literals with integral value"]
     vlib.build_coq()
     ths, rep = vlib.check_props(pid)
     if pid == "C01":
@@ -80,7 +81,17 @@ def common(res, pid):
     res.streams["expander"] = {"invocations": len(eq), "accepted": sum(1 for x in eq if x[1] == "ok"),
                                "token_disagreements": len(bad), "tokens_compared": sum(x[4] for x in eq)}
     # (c) semantic stage
-    cases = stage(res)
+    try:
+        cases = stage(res)
+    except semstage.RejectedAssertion as e:
+        # C02: a value that satisfies (or not) a well-formed, well-typed pattern must give a verdict; for the other properties of
+        # this stage it is the end of the check without a failing input of their own
+        kind = "failing-input" if pid == "C02" else "no-failing-input-found"
+        res.violation(kind, "a well-typed assertion of the generated corpus is rejected by the compiler (it compiles on the tree the "
+                      "generator was validated on): assert_struct!(v, %s) with v: %s = %s" % (e.case.get("program_pattern", e.case["pattern"]), e.case["type"], e.case["value_rust"]),
+                      {"rejected_assertion": True, "type": e.case["type"], "value": e.case["value_rust"], "pattern": e.case.get("program_pattern", e.case["pattern"]),
+                       "rustc": e.stderr})
+        raise vlib.CheckError("the semantic stage could not be run: " + str(e)[:600])
     name_c = "correspondence:semantics(real run == exec(expand) == frontier)"
     res.obligations.append(name_c)
     sem_dis = []
